@@ -10,7 +10,7 @@ Each prefix is one typed association list; `dump` re-encodes the tables into the
 key/value bytes, sorted like a memdb iterator, and the tie compares that with the real
 database after every operation.
 
-`updateLastAccepted` takes a flag `fixed`: `false` is the code at the pinned commit, `true`
+`updateLastAccepted` takes a flag `fixed`: `false` is the code before /repo 6de9247, `true`
 is the code after `/verif/fixes/C19-prune-target-missing.patch` (a missing prune target is
 ignored instead of being returned as `not found`).
 -/
@@ -110,7 +110,7 @@ def getBlock (c : CI) (id : Bytes) : Option Bytes :=
 
 /-! ## mutators -/
 
-/-- `UpdateLastAccepted`. `fixed = false`: pinned commit; `fixed = true`: with the patch. -/
+/-- `UpdateLastAccepted`. `fixed = false`: before /repo 6de9247; `fixed = true`: with the patch (= /repo since 6de9247). -/
 def updateLastAccepted (fixed : Bool) (c : CI) (b : Block) : CI × Res :=
   let batch := BOp.putLast b.height :: writeBlock b
   let expiry := sub64 b.height c.w
